@@ -139,6 +139,7 @@ func runC09(s *spec.Spec, logPath string) {
 					}
 				case st.Pub != nil:
 					simrt.BeginCall()
+					simrt.CallBudget(callBudgetOf(s.Universe[st.Pub.U].String()), s.Universe[st.Pub.U].String())
 					var v interface{}
 					setCall(s.Universe[st.Pub.U].String())
 					func() {
